@@ -180,6 +180,36 @@ if state == "failed-id":
     print(json.dumps({"failed": failed, "extra_children": [k for k in kids if k != pid]}))
     g.terminate(1)
     sys.exit(0)
+def alive(p):
+    try:
+        st = open("/proc/%d/stat" % p).read().split()
+        return st[2] != "Z"
+    except OSError:
+        return False
+if state == "atexit":
+    # the initiator simply ends: execnet's own atexit hook calls terminate(timeout=1.0)
+    import subprocess
+    g.terminate(1)
+    code = ("import sys\nsys.path.insert(0, '/repo/src')\nimport execnet\n"
+            "gw = execnet.makegateway('popen//execmodel=%s')\n"
+            "ch = gw.remote_exec(%r)\nprint(ch.receive(), flush=True)\n") % (model, "import os\nchannel.send(os.getpid())\n" + SRC["swallow"])
+    import tempfile
+    fo, fe = tempfile.TemporaryFile("w+"), tempfile.TemporaryFile("w+")  # no pipes: the worker inherits them
+    t = time.time()
+    p = subprocess.Popen([sys.executable, "-c", code], stdout=fo, stderr=fe, stdin=subprocess.DEVNULL)
+    p.wait(40)
+    dt = time.time() - t
+    fo.seek(0); fe.seek(0)
+    wpid = int(fo.read().split()[0])
+    err = fe.read().strip()
+    time.sleep(0.3)
+    # when terminate() has returned the child has exited: look right after the initiator is gone
+    left = [wpid] if alive(wpid) else []
+    print(json.dumps({"elapsed": round(dt, 2), "len": 0, "alive": left, "stderr": err.splitlines()[-1][:120] if err else ""}))
+    for x in left:
+        try: os.kill(x, signal.SIGKILL)
+        except OSError: pass
+    sys.exit(0)
 if SRC[state]:
     ch = gw.remote_exec(SRC[state])
 time.sleep(0.5)
@@ -277,6 +307,7 @@ def run(tier: str, only=None) -> int:
     # real cells
     if not only or "real" in only:
         cells = [(m, s, 0.5) for m in ("thread", "main_thread_only") for s in list(STATES) + ["failed-id"]]
+        cells.append(("thread", "atexit", 1.0))
         if tier == "thorough":
             cells += [(m, s, 2.0) for m in ("thread", "main_thread_only") for s in STATES]
         res = pmap(lambda chunk: [real_cell(c) for c in chunk], [cells[i::16] for i in range(16)])
@@ -294,7 +325,7 @@ def run(tier: str, only=None) -> int:
                         if not d["failed"] or d["extra_children"]:
                             bad = f"makegateway with a taken id: failed={d['failed']}, extra live children={d['extra_children']}"
                     elif d["elapsed"] > 4 * timeout + 5 or d["len"] != 0 or d["alive"]:
-                        bad = f"terminate({timeout}) took {d['elapsed']} s, len(group)={d['len']}, live child pids={d['alive']}"
+                        bad = f"terminate({timeout}) took {d['elapsed']} s, len(group)={d['len']}, live child pids={d['alive']}" + (f" (the initiator ended without calling terminate: execnet's atexit hook did; its stderr ends with: {d.get('stderr')})" if state == "atexit" else "")
                 if bad:
                     again = real_cell(cell)[1]
                     rep.violation(f"c05:real-{state}", f"real cell {cell}: {bad}; re-run: {again}", {"check": PID, "sub": "real", "cell": list(cell)})
